@@ -79,12 +79,15 @@ fn printable(b: u8) -> bool {
     (0x20..0x7f).contains(&b) && b != b'"' && b != b'\\'
 }
 
-/// a Coq `string` literal; identifiers of the database must be printable ASCII without quotes
+/// a Coq `string` term: a literal for printable ASCII (`"` doubled, which is Coq's only escape), else
+/// the explicit byte list
 pub fn coq_string(s: &str) -> String {
-    if !s.bytes().all(printable) {
-        fail(&format!("identifier {:?} is not printable ASCII; the model's strings are byte strings", s));
+    if s.bytes().all(|b| (0x20..0x7f).contains(&b)) {
+        format!("\"{}\"", s.replace('"', "\"\""))
+    } else {
+        let items: Vec<String> = s.bytes().map(|c| c.to_string()).collect();
+        format!("(string_of_bytes [{}])", items.join(";"))
     }
-    format!("\"{s}\"")
 }
 
 /// a Coq `bytes` term
@@ -266,10 +269,61 @@ pub fn coq_value(v: &Variant) -> String {
     }
 }
 
-pub fn dtype_str(t: &DataType) -> String {
+/// Identifiers that occur more than once are emitted once as `Definition s<k> := "..."` and referred to
+/// by name: a Coq string literal costs nine constructor nodes per character every time it is parsed, and
+/// most names (inherited defaults, enum types) occur hundreds of times.  Purely a size/time measure:
+/// `vm_compute` and extraction see through the constants.
+pub struct Names {
+    idx: std::collections::HashMap<String, usize>,
+    order: Vec<String>,
+}
+impl Names {
+    pub fn collect(db: &ReflectionDatabase) -> Names {
+        let mut cnt: std::collections::BTreeMap<String, usize> = std::collections::BTreeMap::new();
+        let mut see = |s: &str| *cnt.entry(s.to_string()).or_insert(0) += 1;
+        for c in db.classes.values() {
+            see(&c.name);
+            if let Some(s) = &c.superclass {
+                see(s);
+            }
+            for p in c.properties.values() {
+                see(&p.name);
+                if let DataType::Enum(e) = &p.data_type {
+                    see(e);
+                }
+                match &p.kind {
+                    PropertyKind::Alias { alias_for } => see(alias_for),
+                    PropertyKind::Canonical { serialization: PropertySerialization::SerializesAs(n) } => see(n),
+                    PropertyKind::Canonical { serialization: PropertySerialization::Migrate(m) } => see(&m.new_property_name),
+                    _ => {}
+                }
+            }
+            for k in c.default_properties.keys() {
+                see(k);
+            }
+        }
+        for e in db.enums.values() {
+            see(&e.name);
+            for i in e.items.keys() {
+                see(i);
+            }
+        }
+        let order: Vec<String> = cnt.into_iter().filter(|(k, n)| *n >= 2 && k.len() > 2).map(|(k, _)| k).collect();
+        let idx = order.iter().enumerate().map(|(i, k)| (k.clone(), i)).collect();
+        Names { idx, order }
+    }
+    pub fn s(&self, s: &str) -> String {
+        match self.idx.get(s) {
+            Some(i) => format!("s{i}"),
+            None => coq_string(s),
+        }
+    }
+}
+
+pub fn dtype_str(nm: &Names, t: &DataType) -> String {
     match t {
         DataType::Value(vt) => format!("V {}", vt_num(*vt)),
-        DataType::Enum(name) => format!("E {}", coq_string(name)),
+        DataType::Enum(name) => format!("E {}", nm.s(name)),
         other => fail(&format!("DataType {:?} is not known to the model", other)),
     }
 }
@@ -287,18 +341,18 @@ pub fn migration_op(m: &rbx_reflection::PropertyMigration) -> &'static str {
     }
 }
 
-fn kind_str(k: &PropertyKind) -> String {
+fn kind_str(nm: &Names, k: &PropertyKind) -> String {
     match k {
         PropertyKind::Canonical { serialization } => match serialization {
             PropertySerialization::Serializes => "Y".to_string(),
             PropertySerialization::DoesNotSerialize => "D".to_string(),
-            PropertySerialization::SerializesAs(n) => format!("(A {})", coq_string(n)),
+            PropertySerialization::SerializesAs(n) => format!("(A {})", nm.s(n)),
             PropertySerialization::Migrate(m) => {
-                format!("(M {} {})", coq_string(&m.new_property_name), migration_op(m))
+                format!("(M {} {})", nm.s(&m.new_property_name), migration_op(m))
             }
             other => fail(&format!("PropertySerialization {:?} is not known to the model", other)),
         },
-        PropertyKind::Alias { alias_for } => format!("(L {})", coq_string(alias_for)),
+        PropertyKind::Alias { alias_for } => format!("(L {})", nm.s(alias_for)),
         other => fail(&format!("PropertyKind {:?} is not known to the model", other)),
     }
 }
@@ -359,6 +413,12 @@ pub fn render(db: &ReflectionDatabase) -> String {
     writeln!(o, "Definition database_version : list N := [{};{};{};{}].", db.version[0], db.version[1], db.version[2], db.version[3]).unwrap();
     writeln!(o).unwrap();
 
+    let nm = Names::collect(db);
+    writeln!(o, "(* identifiers that occur more than once *)").unwrap();
+    for (i, k) in nm.order.iter().enumerate() {
+        writeln!(o, "Definition s{} := {}.", i, coq_string(k)).unwrap();
+    }
+    writeln!(o).unwrap();
     let classes = sorted_classes(db);
     for (k, c) in classes.iter().enumerate() {
         // the codecs look classes and properties up by MAP KEY and then use the descriptor's own name;
@@ -374,17 +434,17 @@ pub fn render(db: &ReflectionDatabase) -> String {
             if pk.as_ref() != p.name.as_ref() {
                 fail(&format!("{}: property map key {:?} differs from the descriptor name {:?}", c.name, pk, p.name));
             }
-            plines.push(format!("P {} ({}) {}", coq_string(&p.name), dtype_str(&p.data_type), kind_str(&p.kind)));
+            plines.push(format!("P {} ({}) {}", nm.s(&p.name), dtype_str(&nm, &p.data_type), kind_str(&nm, &p.kind)));
         }
         let mut defs: Vec<_> = c.default_properties.iter().collect();
         defs.sort_by(|a, b| a.0.cmp(b.0));
-        let dlines: Vec<String> = defs.iter().map(|(dk, dv)| format!("({},{})", coq_string(dk), coq_value(dv))).collect();
+        let dlines: Vec<String> = defs.iter().map(|(dk, dv)| format!("({},{})", nm.s(dk), coq_value(dv))).collect();
         let sup = match &c.superclass {
             None => "None".to_string(),
-            Some(s) => format!("(Some {})", coq_string(s)),
+            Some(s) => format!("(Some {})", nm.s(s)),
         };
         let service = c.tags.contains(&ClassTag::Service);
-        writeln!(o, "Definition {} : cdesc := mkCD {} {} {}", class_ident(k), coq_string(&c.name), sup, service).unwrap();
+        writeln!(o, "Definition {} : cdesc := mkCD {} {} {}", class_ident(k), nm.s(&c.name), sup, service).unwrap();
         writeln!(o, " [{}]", plines.join(";\n  ")).unwrap();
         writeln!(o, " [{}].", dlines.join(";\n  ")).unwrap();
     }
@@ -398,8 +458,8 @@ pub fn render(db: &ReflectionDatabase) -> String {
         }
         let mut items: Vec<_> = e.items.iter().collect();
         items.sort_by(|a, b| a.0.cmp(b.0));
-        let il: Vec<String> = items.iter().map(|(n, v)| format!("({},{})", coq_string(n), v)).collect();
-        elines.push(format!("mkED {} [{}]", coq_string(&e.name), il.join(";")));
+        let il: Vec<String> = items.iter().map(|(n, v)| format!("({},{})", nm.s(n), v)).collect();
+        elines.push(format!("mkED {} [{}]", nm.s(&e.name), il.join(";")));
     }
     writeln!(o, "Definition database_enums : list edesc :=\n [{}].", elines.join(";\n  ")).unwrap();
     writeln!(o).unwrap();
